@@ -302,7 +302,11 @@ func c10Space(name string, seqLen int) *core.Space {
 		Size: product(radices...),
 		Text: func(i int) string {
 			c := dec(i)
-			return fmt.Sprintf("source=%s carrier=%s destination=%s policy=%s %s", c.src.Name, c.car.Name, c10Dests[c.dst].Name, c.pol, seqText(c))
+			md := ""
+			if c.dst%2 == 1 {
+				md = " MetaData{merge.yml}"
+			}
+			return fmt.Sprintf("source=%s carrier=%s destination=%s policy=%s%s %s", c.src.Name, c.car.Name, c10Dests[c.dst].Name, c.pol, md, seqText(c))
 		},
 		Exec: func(i int) core.Result {
 			c := dec(i)
@@ -327,6 +331,10 @@ func c10Space(name string, seqLen int) *core.Space {
 				mopts := append([]ucfg.Option{}, c.src.Opts...)
 				mopts = append(mopts, policyOpt[c.pol]...)
 				mopts = append(mopts, c.car.Opts...)
+				if c.dst%2 == 1 {
+					// (every other destination: the merge names a source file for the settings it copies)
+					mopts = append(mopts, ucfg.MetaData(ucfg.Meta{Source: "merge.yml"}))
+				}
 				err := d.Merge(c.car.Wrap(s), mopts...)
 				after := c10Snapshot(s, keep, c.src.Opts)
 				sigBase := fmt.Sprintf("carrier=%s source=%s", c.car.Name, srcClass(c.src.Name))
